@@ -357,6 +357,71 @@ func ruleC01Tiers(r *Run) {
 	} else {
 		chk("static hit returns", staticHitReturns(lStatic, []ssa.Instruction{lReg, lIrr}), "a static hit returns immediately", "a static hit can continue into later tiers")
 	}
+	// a miss in one tier goes on to a later tier: every path from a tier's lookup that returns without
+	// consulting a later tier took that tier's own hit decision (comma-ok true / a successful regexp match)
+	{
+		type tier struct {
+			name string
+			in   ssa.Instruction
+		}
+		tiers := []tier{{"static", lStatic}}
+		if lCache != nil {
+			tiers = append(tiers, tier{"cache", lCache})
+		}
+		tiers = append(tiers, tier{"first-segment", lReg}, tier{"residual", lIrr})
+		for ti := 0; ti+1 < len(tiers); ti++ {
+			t := tiers[ti]
+			later := map[ssa.Instruction]bool{}
+			for _, l := range tiers[ti+1:] {
+				later[l.in] = true
+			}
+			var okv ssa.Value
+			if v, isV := t.in.(ssa.Value); isV {
+				okv = extractOf(v, 1)
+			}
+			fps, complete := exploreFrom(t.in, nil, 6000)
+			okFall := complete && len(fps) > 0
+			lost := ""
+			for _, fp := range fps {
+				if fp.ret == nil {
+					continue
+				}
+				reached := false
+				var regexOK []ssa.Value
+				for _, x := range fp.instrs {
+					if later[x] {
+						reached = true
+					}
+					if c, isC := x.(*ssa.Call); isC && staticCallee(c) == m.matchRegex {
+						regexOK = append(regexOK, extractOf(c, 1))
+					}
+				}
+				if reached {
+					continue
+				}
+				hit := false
+				for _, d := range fp.pc.decs {
+					if d.If == nil || !d.Truth {
+						continue
+					}
+					if okv != nil && d.Cond == okv && (t.name == "static" || t.name == "cache") {
+						hit = true
+					}
+					for _, ro := range regexOK {
+						if ro != nil && d.Cond == ro {
+							hit = true
+						}
+					}
+				}
+				if !hit {
+					okFall = false
+					lost = w.Pos(w.InstrPos(fp.ret))
+				}
+			}
+			r.Check(rule, "(*Router).match:"+t.name+" miss falls through", w.InstrPos(t.in), okFall,
+				map[bool]string{true: "when the " + t.name + " tier has no match the later tiers are still consulted", false: "a path returns (at " + lost + ") after the " + t.name + " tier without a hit and without consulting the later tier(s): a route registered there is never found for such a request"}[okFall])
+		}
+	}
 	// scans: first regexp match wins, ascending registration order
 	calls := callsToFn(mf, m.matchRegex)
 	r.Check(rule, "(*Router).match:scan sites", mf.Pos(), len(calls) == 2, fmt.Sprintf("%d matchRegex call sites (one per dynamic tier)", len(calls)))
@@ -1070,11 +1135,11 @@ func init() {
 	register(&property{
 		Meta: propertyMeta{
 			ID:          "C01",
-			Explanation: "The index that lookup walks is complete and ordered as the property states (not the regexp semantics of a pattern): (C01-ACCUM) path-sensitive evaluation of every insert into the two list-valued tier tables: the stored list is 'existing list ++ [route]', a fresh list only on a path where the comma-ok lookup said absent. (C01-METHODS) every tier insert is keyed by each element of a range over route.methods. (C01-KEYS) writer and reader keys agree per tier (static: method + whole path; first-segment: method + seg(X) with the same canonical form of seg on both sides; residual: method). (C01-TIERS) in match the static lookup dominates everything, a static hit returns at once, the cache sits after static and before dynamic matching, first-segment list before residual list, each scan is a range loop over the looked-up list applying the regexp to the whole path and returning the first candidate that matches with its own parameters. (C01-REPR) representation typestate: values derived from quotePointChar (regex-escaped text and offsets) flow only into the compile call, never into Route.start or the first-segment key, which are compared with raw request text. (C01-ANCHOR) every compiled route pattern is '^' ++ ... ++ '$'.",
+			Explanation: "The index that lookup walks is complete and ordered as the property states (not the regexp semantics of a pattern): (C01-ACCUM) path-sensitive evaluation of every insert into the two list-valued tier tables: the stored list is 'existing list ++ [route]', a fresh list only on a path where the comma-ok lookup said absent. (C01-METHODS) every tier insert is keyed by each element of a range over route.methods. (C01-KEYS) writer and reader keys agree per tier (static: method + whole path; first-segment: method + seg(X) with the same canonical form of seg on both sides; residual: method). (C01-TIERS) in match the static lookup dominates everything, a static hit returns at once, the cache sits after static and before dynamic matching, first-segment list before residual list, each scan is a range loop over the looked-up list applying the regexp to the whole path and returning the first candidate that matches with its own parameters. (C01-REPR) representation typestate: values derived from quotePointChar (regex-escaped text and offsets) flow only into the compile call, never into Route.start or the first-segment key, which are compared with raw request text; (C01-SPACE) the same separation for every literal-space sink (Route.path, Route.start, a read Route.spath, the returned table key, the URL template of ToURL) against every escaping/rewriting step. (C01-ANCHOR) every compiled route pattern is '^' ++ ... ++ '$'.",
 			NotDecided:  []string{"that the generated regexp means what the pattern grammar says ({name}, {name:regex}, [...])", "isFixedPath and the off-by-one arithmetic inside seg (only writer/reader agreement is checked)", "priority among patterns that the grammar makes overlap beyond tier and registration order"},
 			Assumptions: []string{"regexp package semantics", "go/ssa range-loop lowering (#rangeindex) visits elements in ascending order"},
 		},
-		Rules: []ruleFn{{"C01-ACCUM", ruleC01Accum}, {"C01-METHODS", ruleC01Methods}, {"C01-KEYS", ruleC01Keys}, {"C01-TIERS", ruleC01Tiers}, {"C01-REPR", ruleC01Repr}, {"C01-ANCHOR", ruleC01Anchor}, {"C01-GRAMMAR", ruleC01Grammar}, {"C07-KEY", ruleCacheKey("C07-KEY")}, {"C07-VALUE", ruleC02Cache("C07-VALUE")}, {"C07-NODE", ruleCacheStruct("C07")}},
+		Rules: []ruleFn{{"C01-ACCUM", ruleC01Accum}, {"C01-METHODS", ruleC01Methods}, {"C01-KEYS", ruleC01Keys}, {"C01-TIERS", ruleC01Tiers}, {"C01-REPR", ruleC01Repr}, {"C01-ANCHOR", ruleC01Anchor}, {"C01-GRAMMAR", ruleC01Grammar}, {"C01-SPACE", ruleC01Space}, {"C07-KEY", ruleCacheKey("C07-KEY")}, {"C07-VALUE", ruleC02Cache("C07-VALUE")}, {"C07-NODE", ruleCacheStruct("C07")}},
 	})
 	register(&property{
 		Meta: propertyMeta{
